@@ -1,7 +1,6 @@
 package checks
 
 import (
-	"sort"
 	"bufio"
 	"bytes"
 	"context"
@@ -12,6 +11,7 @@ import (
 	"net/http/httptest"
 	"os"
 	"os/exec"
+	"sort"
 	"strings"
 	"sync"
 	"sync/atomic"
@@ -39,6 +39,7 @@ import (
 func init() {
 	Registry["C19"] = c19
 	Workers["c19feed"] = c19FeedWorker
+	Workers["c19prom"] = c19PromWorker
 }
 
 var c19Statuses = map[int]bool{200: true, 400: true, 403: true, 404: true, 409: true, 422: true, 429: true, 500: true}
@@ -118,6 +119,9 @@ func c19Endpoint(run *ev.Run, tier string) int64 {
 	add(append([]byte("old 4\n"+strings.Repeat("QUJD\n", 3000)+"\n"), good...))
 	add(append([]byte("old 4\n"+strings.Repeat("AAAA", 1100)+"\n\n"), good...)) // one proof line longer than bufio's buffer
 	add(bytes.Repeat([]byte("\n"), 16000))
+	for _, b := range c19OriginSweep(u) {
+		add(b)
+	}
 	run.Set("endpoint_inputs", len(inputs))
 
 	var n int64
@@ -208,7 +212,112 @@ loop:
 			}
 		}
 	}
-	return atomic.LoadInt64(&n) + c19EndpointSQL(run, u, gen, la, lb, seeds)
+	return atomic.LoadInt64(&n) + c19EndpointSQL(run, u, gen, la, lb, seeds) + c19Prom(run)
+}
+
+// c19OriginSweep: validly signed checkpoints of unknown origins whose first
+// line is k ASCII bytes followed by a multi-byte rune, an invalid byte or a
+// 4-byte rune, for every k in 0..130 (any fixed-length cut of the origin -
+// for a log line, a metric label, a cache key - lands inside a rune for some k).
+func c19OriginSweep(u *uni.U) [][]byte {
+	var out [][]byte
+	for k := 0; k <= 130; k++ {
+		for _, tail := range []string{"\u00e9", "\u20ac", "\xff", "\U0001F600"} {
+			origin := strings.Repeat("a", k) + tail
+			out = append(out, c10Body(0, nil, u.Sign(uni.Body(origin, 3, u.Main.Root(3)), u.K1.Signer)))
+		}
+	}
+	return out
+}
+
+// c19Prom runs the named requests and the origin sweep through the handler in
+// a worker process whose metric factory is the Prometheus one (the production
+// default): a label value the client library rejects panics inside the handler.
+func c19Prom(run *ev.Run) int64 {
+	self, _ := os.Executable()
+	cmd := exec.Command(self, "worker", "c19prom")
+	cmd.Env = append(os.Environ(), "VERIF_METRICS=prometheus")
+	out, err := cmd.Output()
+	var res struct {
+		N      int64
+		Panics []struct{ Name, Body, Panic string }
+		Bad    []struct {
+			Name, Body string
+			Status     int
+		}
+	}
+	if err != nil || json.Unmarshal(lastLine(out), &res) != nil {
+		ev.Internal("C19 prometheus worker failed: %v: %s", err, tail(out))
+	}
+	for _, p := range res.Panics {
+		run.Report("endpoint-panic metrics=prometheus request="+p.Name, fmt.Sprintf("with the Prometheus metric factory (the default of cmd/omniwitness) request %s made the add-checkpoint handler panic: %s", p.Name, p.Panic), map[string]any{"kind": "http-body-prometheus", "body_b64": p.Body})
+	}
+	for _, b := range res.Bad {
+		run.Report(fmt.Sprintf("endpoint-undocumented-status metrics=prometheus status=%d", b.Status), fmt.Sprintf("with the Prometheus metric factory request %s answered %d", b.Name, b.Status), map[string]any{"kind": "http-body-prometheus", "body_b64": b.Body})
+	}
+	run.Set("endpoint_requests_with_prometheus_metrics", res.N)
+	return res.N
+}
+
+func c19PromWorker(args []string) int {
+	wh.InstallLogicalClock()
+	u := uni.New(ev.Seed(), 8, []int{0})
+	gen := wh.NewCPGen(u)
+	la := wh.LogCfg{Origin: logA(), Key: u.K1}
+	lb := wh.LogCfg{Origin: logB(), Key: u.K2}
+	m, f := u.Main, u.Forks[0]
+	body := func(l wh.LogCfg, b *uni.Branch, old, n int, shape string, proofFrom int) []byte {
+		cp, _ := gen.Get(l, b, n, shape)
+		return c10Body(uint64(old), b.Proof(proofFrom, n), cp)
+	}
+	type in struct {
+		name string
+		b    []byte
+	}
+	ins := []in{
+		{"accepted-growth", body(la, m, 4, 6, "plain", 4)}, {"accepted-refresh", body(la, m, 4, 4, "ext", 0)}, {"first-use", body(lb, m, 0, 3, "plain", 0)},
+		{"stale", body(la, m, 2, 6, "plain", 2)}, {"old-too-large", body(la, m, 7, 6, "plain", 4)}, {"root-mismatch", body(la, f, 4, 4, "plain", 0)},
+		{"bad-proof", body(la, m, 4, 6, "plain", 3)}, {"bad-signature", c10Body(0, nil, gen.Forged(la, m, 5)[1].CP)}, {"malformed", []byte("old x\n\n")}, {"empty", nil},
+		{"non-utf8-origin-short", c10Body(0, nil, u.Sign(uni.Body("\xff\xfe", 3, m.Root(3)), u.K1.Signer))},
+	}
+	for i, b := range c19OriginSweep(u) {
+		ins = append(ins, in{fmt.Sprintf("unknown-origin-sweep[%d]", i), b})
+	}
+	var res struct {
+		N      int64
+		Panics []map[string]string
+		Bad    []map[string]any
+	}
+	for _, seeded := range []bool{false, true} {
+		e := wh.NewEnv(u, wh.Config{Store: "mem", Logs: []wh.LogCfg{la, lb}})
+		if seeded {
+			cp, meta := gen.Get(la, m, 4, "plain")
+			e.Do(wh.Req{LogID: la.ID(), CP: cp, Meta: meta})
+		}
+		h := bastion.VerifNewHandler(omniwitness.VerifWitnessAdapter(e.W), c10Logs(la, lb), u.W1.CosigVerif, rate.Inf, 1, true)
+		for _, x := range ins {
+			rw := httptest.NewRecorder()
+			var pan any
+			func() {
+				defer func() { pan = recover() }()
+				h.ServeHTTP(rw, httptest.NewRequest(http.MethodPost, "/", bytes.NewReader(x.b)))
+			}()
+			res.N++
+			if pan != nil {
+				if len(res.Panics) < 5 {
+					res.Panics = append(res.Panics, map[string]string{"Name": x.name, "Body": base64.StdEncoding.EncodeToString(x.b), "Panic": fmt.Sprint(pan)})
+				}
+				continue
+			}
+			if !c19Statuses[rw.Code] && len(res.Bad) < 5 {
+				res.Bad = append(res.Bad, map[string]any{"Name": x.name, "Body": base64.StdEncoding.EncodeToString(x.b), "Status": rw.Code})
+			}
+		}
+		e.Close()
+	}
+	b, _ := json.Marshal(res)
+	fmt.Println(string(b))
+	return 0
 }
 
 // c19EndpointSQL: on the production store (SQLite, one connection) a request
